@@ -645,7 +645,6 @@ func (prop) Run(raw json.RawMessage, scratch string) core.Result {
 	var coqSteps []string
 	enc := newEnc()
 	nRuns, nSkips, nExec := 0, 0, 0
-	transparencyNote := false
 
 	for k := range in.Ops {
 		o := &in.Ops[k]
@@ -781,9 +780,6 @@ func (prop) Run(raw json.RawMessage, scratch string) core.Result {
 			}
 			coqOp = diffOp(prev, t, o.P)
 			tags["edit:"+o.K+":"+editKind(o.File)] = true
-			if o.K == "restoregen" {
-				transparencyNote = true
-			}
 		}
 		if ro != nil {
 			// how many in-scope packages were skipped (for the distribution only)
@@ -834,9 +830,6 @@ func (prop) Run(raw json.RawMessage, scratch string) core.Result {
 	}
 	if nSkips > 0 {
 		res.Tags = append(res.Tags, "some-skip")
-	}
-	if transparencyNote {
-		res.Notes = append(res.Notes, "history restores an earlier generated file (RestoreGenerated): a matching recorded hash then trusts the stale output — by design of the recorded value, not claimed otherwise (DESIGN.md C08, cache transparency)")
 	}
 	return res
 }
